@@ -215,6 +215,54 @@ def replay_case(args):
     return res, len(exp_pos), (kind, tuple(sorted(acc)), apex)
 
 
+def replay_history(args):
+    """One Pyramid OBJECT used through a history: depth changed in between (the attribute is documented as changeable).
+    Every count / visit after the change must be the one the spec gives for the new depth."""
+    recs = args            # list of (depth, rec) for the same (kind, filter, apex), different depths
+    repo.setup()
+    import io
+    import contextlib
+    d0, r0 = recs[0]
+    kind = r0["kind"]
+    acc = frozenset(tuple(p) for p in r0["acc"])
+    apex = tuple(r0["apex"])
+    res = []
+    sink = io.StringIO()
+    with contextlib.redirect_stdout(sink):
+        p = _build(kind, d0, acc, apex)
+        order = [recs[0], recs[1], recs[0], recs[1]]
+        for step, (d, rec) in enumerate(order):
+            p.depth = d
+            fin = rec["final"]
+            out = rec["out"]
+            case = {"kind": kind, "acc": sorted(acc), "apex": apex, "history": [x[0] for x in order[:step + 1]]}
+            exp_leaves = [tuple(o["pos"]) for o in out if o["leaf"]]
+            exp_ops = [tuple(o["pos"]) for o in out if (not o["leaf"]) and o["val"]["wk"]]
+            for name, key in (("count_leaf_tiles", "lf"), ("count_live_tiles", "lv"), ("count_operations", "op")):
+                try:
+                    v = getattr(p, name)()
+                except Exception as e:  # noqa
+                    res.append(("V", "%s:history:%s" % (kind, name), "%s raised %r after the depth was changed to %d" % (name, e, d), case))
+                    continue
+                if v != fin[key] and not (not out and v == 0):
+                    res.append(("V", "%s:history:%s" % (kind, name), "after depth changes %s on one Pyramid object, %s() = %r, spec %r" % (case["history"], name, v, fin[key]), case))
+            seen = []
+            try:
+                p.visit_leaves(lambda pos, tile: seen.append(tuple(pos)), parallel=1)
+                if seen != exp_leaves:
+                    res.append(("V", "%s:history:visit-leaves" % kind, "after depth changes %s visit_leaves gives %d leaves, spec %d" % (case["history"], len(seen), len(exp_leaves)), case))
+            except Exception as e:  # noqa
+                res.append(("V", "%s:history:visit-leaves" % kind, "visit_leaves raised %r" % (e,), case))
+            walked = []
+            try:
+                p.walk(lambda pos: walked.append(tuple(pos)), parallel=1)
+                if walked != exp_ops:
+                    res.append(("V", "%s:history:walk" % kind, "after depth changes %s walk calls back for %d tiles, spec %d" % (case["history"], len(walked), len(exp_ops)), case))
+            except Exception as e:  # noqa
+                res.append(("V", "%s:history:walk" % kind, "walk raised %r" % (e,), case))
+    return res
+
+
 def algebra_samples(rng, n, maxdepth):
     cases = []
     for _ in range(n):
@@ -280,7 +328,17 @@ def run(ctx):
         acc3.add(random_accept(rng, 3, rng.choice(["sparse", "mid", "dense"])))
     ap3 = [ROOT, (1, 0, 1), (2, 1, 2), (3, 5, 2), (3, 0, 0)] + ([(2, 3, 3), (1, 1, 1), (3, 7, 7)] if not ctx.quick else [])
     r3 = ctx.tlc("MCReduce", extra={"MCReduce.tla": mc_module(3, acc3, ap3, kinds, 0)}, cfg_text=CFG % 3, timeout=3000)
-    recs += [(3, rec) for rec in r3.json_lines("R")]
+    recs3 = [(3, rec) for rec in r3.json_lines("R")]
+    recs += recs3
+    # the same filters and apexes at depth 2: histories on one Pyramid object whose depth attribute is changed in between
+    ap32 = [a for a in ap3 if a[0] <= 2]
+    sub3 = sorted(acc3, key=lambda a: sorted(a))[: (60 if ctx.quick else 600)]
+    r32 = ctx.tlc("MCReduce", extra={"MCReduce.tla": mc_module(2, sub3, ap32, kinds, 0)}, cfg_text=CFG % 2, timeout=3000)
+    by_key = {}
+    for d, rec in recs3 + [(2, rec) for rec in r32.json_lines("R")]:
+        k = (rec["kind"], tuple(sorted(tuple(p) for p in rec["acc"])), tuple(rec["apex"]))
+        by_key.setdefault(k, {})[d] = rec
+    histories = [[(3, v[3]), (2, v[2])] for v in by_key.values() if 2 in v and 3 in v]
     for d, accs, aps in ((1, [frozenset(s) for r_ in range(5) for s in itertools.combinations(l1, r_)], [ROOT, (1, 0, 0), (1, 1, 1)]),
                          (0, [frozenset()], [ROOT])):
         rr = ctx.tlc("MCReduce", extra={"MCReduce.tla": mc_module(d, accs, aps, kinds, 0)}, cfg_text=CFG % d, timeout=600)
@@ -300,6 +358,14 @@ def run(ctx):
                 ctx.violation("C13:" + k, msg, {"case": case})
             else:
                 ctx.drift("%s %s (case %s)" % (k, msg, case))
+    with mp.Pool(8) as pool:
+        hres = pool.map(replay_history, histories, chunksize=8)
+    for res in hres:
+        ctx.count()
+        ctx.trace_ok()
+        for sev, k, msg, case in res:
+            ctx.violation("C13:" + k, msg, {"case": case})
+    ctx.note("object_histories_replayed", len(histories))
     for d, rec in recs[:3] + recs[len(recs) // 2: len(recs) // 2 + 2]:
         ctx.sample({"depth": d, "kind": rec["kind"], "apex": rec["apex"], "accept": rec["acc"][:12],
                     "history": [[o["pos"], o["leaf"]] for o in rec["out"][:12]], "final": rec["final"]})
